@@ -1053,7 +1053,7 @@ def run(ctx):
     ctx.cov["conditional_spd_conditions"] = {
         "TransverselyIsotropic": "El,Et,Gl <> 0 and (1-vt)*El - 2*vl^2*Et > 0 (kt > 0; not enforced by the constructor)",
         "Orthotropic": "all moduli <> 0, E3*v23^2 < E2 (asserted in _Behavior) and c_ij denominator < 0 (not enforced)"}
-    ctx.copy_props("C11/C11_wf.v", "C11/C11_laws.v", "C11/C11_pmat.v", "C11/C11_pmat_norm.v", "C11/C11_aniso.v", "C11/C11_aniso3d.v", "C11/C11_lazy.v", "C11/C11_rot.v", "C11/C11_rotinv.v", "C11/C11_rotinv_laws.v", "C11/C11_spdiff.v")
+    ctx.copy_props("C11/C11_wf.v", "C11/C11_laws.v", "C11/C11_pmat.v", "C11/C11_pmat_norm.v", "C11/C11_aniso.v", "C11/C11_aniso3d.v", "C11/C11_lazy.v", "C11/C11_rot.v", "C11/C11_rotinv.v", "C11/C11_rotinv_laws.v", "C11/C11_spdiff.v", "C11/C11_pmat2.v", "C11/C11_aniso_spd.v")
     res = {}
     holder = {}
 
@@ -1064,7 +1064,8 @@ def run(ctx):
         holder["viol"] = correspondence(ctx, lw, pm)
     tc = threading.Thread(target=corr_job)
     tc.start()
-    th = [threading.Thread(target=job, args=("lazy", ["C11_lazy.v"]))]
+    # ---- theorem files as a small dependency graph: every file starts as soon as the files it imports are compiled
+    dag = {"lazy": (["C11_lazy.v"], [])}
     coq_ok = False
     if pm is not None:
         open(os.path.join(ctx.build, "Gen_Pmat.v"), "w").write(gen_p)
@@ -1078,30 +1079,32 @@ def run(ctx):
             ctx.violation("generated-files", "the regenerated Coq definitions do not compile", {"log": g.log[-3000:]}, found_input=False)
         else:
             coq_ok = True
-            th += [threading.Thread(target=job, args=("pmat", ["C11_pmat.v", "C11_pmat_norm.v"])),
-                   threading.Thread(target=job, args=("rot", ["C11_rot.v", "C11_rotinv.v"]))]
+            dag.update({"pmat": (["C11_pmat.v"], []), "norm": (["C11_pmat_norm.v"], ["pmat"]), "pmat2": (["C11_pmat2.v"], []),
+                        "rot": (["C11_rot.v"], []), "rotinv": (["C11_rotinv.v"], ["rot"])})
             if lw is not None:
-                th += [threading.Thread(target=job, args=("laws", ["C11_laws.v", "C11_spdiff.v"])),
-                       threading.Thread(target=job, args=("aniso", ["C11_aniso.v"])),
-                       threading.Thread(target=job, args=("aniso3d", ["C11_aniso3d.v"]))]
+                dag.update({"laws": (["C11_laws.v"], []), "spdiff": (["C11_spdiff.v"], ["laws"]),
+                            "aniso": (["C11_aniso.v"], []), "aniso3d": (["C11_aniso3d.v"], []),
+                            "rotlaws": (["C11_rotinv_laws.v"], ["pmat", "laws", "rotinv"]),
+                            "anisospd": (["C11_aniso_spd.v"], ["pmat", "rot", "aniso", "aniso3d"])})
     if not (coq_ok and lw is not None):
         ctx.obligation("coqc:skipped:law-theorems", False, "translation failed: the theorem files were not compiled against this tree")
+    done = {k: threading.Event() for k in dag}
+
+    def node(name):
+        files, deps = dag[name]
+        for d in deps:
+            done[d].wait()
+        if all(d in res and res[d].ok for d in deps):
+            job(name, files)
+        else:
+            ctx.obligation("coqc:skipped:%s" % files[0], False, "a file it imports did not compile: %s" % [d for d in deps if not (d in res and res[d].ok)])
+        done[name].set()
+    th = [threading.Thread(target=node, args=(k,)) for k in dag]
     for t in th:
         t.start()
     for t in th:
         t.join()
-    # rotated regenerated laws: needs C11_pmat.v, C11_laws.v and C11_rotinv.v
-    if all(k in res for k in ("pmat", "rot", "laws")) and res["rot"].ok and res["laws"].ok and \
-            (res["pmat"].ok or res["pmat"].failed_file == "C11_pmat_norm.v"):
-        job("rotlaws", ["C11_rotinv_laws.v"])
     tc.join()
-    # C11_pmat_norm.v is compiled right after C11_pmat.v; tell the two apart
-    if "pmat" in res:
-        if res["pmat"].failed_file == "C11_pmat_norm.v":
-            res["norm"] = res["pmat"]
-            res["pmat"] = common.CoqResult()
-        elif res["pmat"].ok:
-            res["norm"] = res["pmat"]
     ctx.sample({"theorem": "iso_spd_3d : forall r2 E v, r2*r2 = 2 -> iso_ok E v -> posdef (iso_3d_C r2 E v) 6",
                 "proof": "closed form by field, then the proved block Sylvester criterion posdef_block33_diag"})
     ctx.sample({"theorem": "pmat3_orthogonal : forall axes r2, r2*r2=2 -> unit_orth3 axes -> P P^T = I /\\ P^T P = I", "proof": "nsatz, 72 entries"})
@@ -1132,7 +1135,7 @@ def run(ctx):
     # ---- correspondence (+ property predicates on the implementation's outputs = the search) ran in parallel
     viol = holder.get("viol")
     # ---- other broken proofs: report (the predicates above give the failing input if the property is violated)
-    for name in ("laws", "pmat", "lazy", "aniso", "rot", "rotlaws"):
+    for name in ("laws", "spdiff", "pmat", "pmat2", "lazy", "aniso", "rot", "rotinv", "rotlaws", "anisospd"):
         r = res.get(name)
         if r is not None and not r.ok:
             ctx.violation("proof-broken:%s" % r.failed_file,
